@@ -175,10 +175,16 @@ async fn read_eval_loop_impl<S: Runtime + 'static>(
             }
 
             // Execute the command
-            Ok(Some(command)) => (run_command(env, &command).await, true),
+            Ok(Some(command)) => {
+                // A line containing no command (blank or comment only) does
+                // not count as an executed command.
+                executed |= !command.0.is_empty();
+                (run_command(env, &command).await, true)
+            }
 
             // Parser error
             Err(error) => {
+                executed = true;
                 let result = error.handle(env).await;
                 let error_recoverable = matches!(error.cause, ErrorCause::Syntax(_));
                 (result, error_recoverable)
@@ -198,8 +204,6 @@ async fn read_eval_loop_impl<S: Runtime + 'static>(
 
         // Break the loop if the command execution results in a divert
         result?;
-
-        executed = true;
     }
 }
 
